@@ -183,6 +183,8 @@ fn random_ins(g: &mut Gen) -> Ins {
 }
 
 pub fn generate(g: &mut Gen, thorough: bool) {
+    // a macro whose body starts with a stack step is a pipeline of its own (with a stack of its own), forward and backward
+    super::lang::stack_led_macros(g, thorough);
     // 1. every single instruction of the full set, on a deep stack and on an empty one, with the
     //    stack made visible afterwards, both directions
     let full = instruction_set(4, 8, true);
